@@ -6,6 +6,7 @@ import itertools
 import json
 import random
 import re
+import time
 from collections import Counter
 from pathlib import Path
 
@@ -502,10 +503,10 @@ def range_cases(tier, rnd):
                 cases.append(("list", args, [f]))
     n_single = len(cases)
     # pairs: index-strided shard (seed independent) / all pairs for the 2-argument forms in the thorough tier
-    K = 499 if tier == "quick" else 13
+    K = 499 if tier == "quick" else 29
     k = 0
     for args in forms:
-        two_arg_full = tier != "quick" and len(args) == 2 and all(isinstance(a, int) and -1 <= a <= 5 for a in args)
+        two_arg_full = tier != "quick" and len(args) == 2 and all(isinstance(a, int) and 0 <= a <= 4 for a in args)
         for f in singles:
             for g in singles:
                 k += 1
@@ -553,28 +554,87 @@ RANGE_WITNESSES = [
 ]
 
 
-def check_range(run, mods, rnd, wd, hist, distinct):
-    """correspondence + oracles for simplify_constrained_range; returns (files, shards, failures, stats)"""
+_RANGE_MODS = None
+
+
+def _range_eval(jobs):
+    """worker: real rule on each case (yields), the property oracle on what it yielded and, where asked,
+    on the rule's text result"""
+    mods = _RANGE_MODS
     rule = mods["symbolic_math"].simplify_constrained_range
-    fmt = mods["main"].format_code
-    cases, n_single, n_pairs = range_cases(run.tier, rnd)
-    items, failures = [], []
-    for case in cases:
+    out = []
+    for _, case, do_text in jobs:
         source = rc_source(case)
+        fails = []
         try:
             res = impl_range(mods, source)
         except Exception as e:  # noqa
             res = ("weird", f"crash {type(e).__name__}: {e}")
-        items.append((case, res, source))
-        hist["range:" + res[0]] += 1
+        did_text = 0
         if res[0] in ("fold", "empty"):
-            distinct.add(source)
-            # oracle on what the real rule yielded
-            pr = range_property_fails(source, rc_apply(case, res))
+            new = rc_apply(case, res)
+            pr = range_property_fails(source, new)
             if pr:
-                failures.append(("simplify_constrained_range", {"source": source, "output": rc_apply(case, res), "problem": pr}))
+                fails.append(("simplify_constrained_range", {"source": source, "output": new, "problem": pr}))
+            if do_text:
+                did_text = 1
+                with common.quiet():
+                    try:
+                        new = rule(source)
+                    except Exception as e:  # noqa
+                        new = f"<crash {type(e).__name__}: {e}>"
+                pr = range_property_fails(source, new)
+                if pr:
+                    fails.append(("simplify_constrained_range", {"source": source, "output": new, "problem": pr}))
         elif res[0] == "weird":
-            failures.append(("simplify_constrained_range", {"source": source, "output": None, "problem": res[1]}))
+            fails.append(("simplify_constrained_range", {"source": source, "output": None, "problem": res[1]}))
+        out.append((case, res, source, fails, did_text))
+    return out
+
+
+def _fmt_eval(srcs):
+    """worker: the comprehension inside a function, through format_code; f(n, ..) before/after"""
+    fmt = _RANGE_MODS["main"].format_code
+    fails = []
+    for src in srcs:
+        prog = "def f(n, m, p, y):\n    return " + src
+        with common.quiet():
+            try:
+                new = fmt(prog, preserve=frozenset({"f"}))
+            except Exception as e:  # noqa
+                fails.append(("main.format_code", {"source": prog, "output": None,
+                                                   "problem": f"crash {type(e).__name__}: {e}"}))
+                continue
+        pr = program_property_fails(prog, new)
+        if pr:
+            fails.append(("main.format_code", {"source": prog, "output": new, "problem": pr}))
+    return fails
+
+
+def check_range(run, mods, rnd, wd, hist, distinct):
+    """correspondence + oracles for simplify_constrained_range; returns (files, shards, failures, stats)"""
+    rule = mods["symbolic_math"].simplify_constrained_range
+    cases, n_single, n_pairs = range_cases(run.tier, rnd)
+    items, failures = [], []
+    # the real rule + the oracles run in forked workers (the parent imported pyrefact already)
+    global _RANGE_MODS
+    _RANGE_MODS = mods
+    step_t = 9 if run.tier == "quick" else 6
+    jobs = [(i, case, i % step_t == run.seed % step_t) for i, case in enumerate(cases)]
+    nw = 4 if run.tier == "quick" else 8
+    size = max(200, len(jobs) // (nw * 8))
+    import multiprocessing
+    with multiprocessing.get_context("fork").Pool(nw) as pool:
+        parts = pool.map(_range_eval, [jobs[k:k + size] for k in range(0, len(jobs), size)])
+    n_text = 0
+    for part in parts:
+        for case, res, source, fails, did_text in part:
+            items.append((case, res, source))
+            hist["range:" + res[0]] += 1
+            if res[0] in ("fold", "empty"):
+                distinct.add(source)
+            failures += fails
+            n_text += did_text
     files, shards = [], []
     SH = 500
     for k in range(0, len(items), SH):
@@ -627,34 +687,13 @@ def check_range(run, mods, rnd, wd, hist, distinct):
 
     # the text result of the real rule (shard) and of format_code (smaller shard), plus the fixed witnesses
     fired = [it for it in items if it[1][0] in ("fold", "empty")]
-    step_t = 9 if run.tier == "quick" else 2
-    n_text = n_fmt = 0
-    for it in fired[run.seed % step_t::step_t]:
-        with common.quiet():
-            try:
-                new = rule(it[2])
-            except Exception as e:  # noqa
-                new = f"<crash {type(e).__name__}: {e}>"
-        n_text += 1
-        pr = range_property_fails(it[2], new)
-        if pr:
-            failures.append(("simplify_constrained_range", {"source": it[2], "output": new, "problem": pr}))
-    e2e = [it[2] for it in fired[run.seed % 97::(len(fired) // (90 if run.tier == "quick" else 2500) or 1)]]
+    n_fmt = 0
+    e2e = [it[2] for it in fired[run.seed % 97::(len(fired) // (90 if run.tier == "quick" else 1000) or 1)]]
     e2e += [w for _, w in RANGE_WITNESSES]
-    for src in e2e:
-        prog = "def f(n, m, p, y):\n    return " + src
-        with common.quiet():
-            try:
-                new = fmt(prog, preserve=frozenset({"f"}))
-            except Exception as e:  # noqa
-                new = None
-                failures.append(("main.format_code", {"source": prog, "output": None,
-                                                      "problem": f"crash {type(e).__name__}: {e}"}))
-        n_fmt += 1
-        if new is not None:
-            pr = program_property_fails(prog, new)
-            if pr:
-                failures.append(("main.format_code", {"source": prog, "output": new, "problem": pr}))
+    with multiprocessing.get_context("fork").Pool(nw) as pool:
+        for part in pool.map(_fmt_eval, [e2e[k::nw * 2] for k in range(nw * 2)]):
+            failures += part
+    n_fmt = len(e2e)
     for fid, w in RANGE_WITNESSES:
         with common.quiet():
             try:
@@ -783,7 +822,9 @@ def check(run: common.Run):
     sum_unrepresentable = [s for s in sums if not (isinstance(s["value"], (int, float)) and float(2 * s["value"]).is_integer())]
 
     # ---- simplify_constrained_range
+    t_range = time.time()
     rfiles, rshards, rfailures, rstats = check_range(run, mods, rnd, wd, hist, distinct)
+    rstats["python_wall_s"] = round(time.time() - t_range, 1)
     files += rfiles; shards += rshards
 
     results = common.run_case_files(files)
